@@ -155,6 +155,10 @@ func C(gas types.Gas, reasonOrBytes any, resultContext AccumulateArgs) (types.Pa
 	case []byte:
 		var h types.OpaqueHash
 		if len(reasonOrBytes) != len(h) {
+			// a regular halt whose output is not a hash: everything of X is kept, including the provided preimages
+			for _, v := range resultContext.ResultContextX.ServiceBlobs {
+				serviceBlobs = append(serviceBlobs, v)
+			}
 			return resultContext.ResultContextX.PartialState, resultContext.ResultContextX.DeferredTransfers, resultContext.ResultContextX.Exception, gas, serviceBlobs, *resultContext.ResultContextX.StorageKeyVal
 		}
 		copy(h[:], reasonOrBytes[:len(h)])
